@@ -15,7 +15,11 @@ PROPERTIES = {
              "module": "xsdata.formats.dataclass.serializers.code", "target": "PycodeSerializer.build_imports",
              "old": "name = name.split('.')[0]", "new": "name = name"},
         ],
-        "decided": [], "not_decided": [], "bounded": [], "trusted_base": [], "assumptions": [],
+        "decided": ["literal_value: QName as constructor call with an escaped literal, finite floats as repr, non-finite through float('...'), str as repr", 'build_imports imports the top-level name of a (possibly nested) class, nothing for builtins', 'repr_array keeps list / tuple brackets', 'enum members as qualified dotted paths, type collected for imports', 'repr_model (one field): a field is left out iff its value equals its default / default_factory()'],
+        "not_decided": ['models with several fields, mappings, write() layout', 'denotation of the whole rendered text (no semantics of eval in the solver)'],
+        "bounded": [],
+        "trusted_base": ['repr(str) / repr(float) evaluate back to the value (language guarantee, sampled)', 'call-site view of repr_object: one chunk that is a function of the value'],
+        "assumptions": [],
     },
     "C04": {
         "min_obligations": 30,
@@ -23,7 +27,11 @@ PROPERTIES = {
             {"name": "filter_none-keeps-none", "function": "xsdata.formats.dataclass.serializers.dict:filter_none#three-entries",
              "module": "xsdata.formats.dataclass.serializers.dict", "target": "filter_none", "old": "if v is not None", "new": "if v is not None or k"},
         ],
-        "decided": [], "not_decided": [], "bounded": [], "trusted_base": [], "assumptions": [],
+        "decided": ['filter_none drops exactly the None entries (3 entries, arbitrary keys/values)', 'DictEncoder.encode returns JSON-native leaves unchanged and None for None', 'best-match scoring counts every non-None typed value (1.5) above the same text bound as str (1.0); a failed candidate scores -1'],
+        "not_decided": ['decode(encode(x)) == x (decoder scoring over arbitrary models)', 'encode of models / arrays / enums / converter fallbacks'],
+        "bounded": [],
+        "trusted_base": ['assumed for the scoring lemma: a model with one int and one str field'],
+        "assumptions": [],
     },
     "C07": {
         "min_obligations": 30,
@@ -31,7 +39,11 @@ PROPERTIES = {
             {"name": "classify-off-by-one", "function": "xsdata.utils.text:classify", "module": "xsdata.utils.text",
              "target": "classify", "old": "64 < code_point < 91", "new": "64 < code_point < 90"},
         ],
-        "decided": [], "not_decided": [], "bounded": [], "trusted_base": [], "assumptions": [],
+        "decided": ['classify: exact ASCII classes', 'alnum, one character at a time over all code points: ASCII letters/digits lower-cased, everything else dropped', 'ClassUtils.unique_name returns a name whose slug is not reserved and keeps a free name (partial correctness)'],
+        "not_decided": ['safe_name recursion, case functions, split_words (character loops)', 'duplicate attribute / class renaming, import aliases', 'generation terminates, modules import, own error type (pipeline; jinja2/toposort/click absent)'],
+        "bounded": [],
+        "trusted_base": ['alnum distributes over concatenation (filter/join/lower are character-wise)'],
+        "assumptions": [],
     },
     "C15": {
         "min_obligations": 100,
@@ -40,7 +52,11 @@ PROPERTIES = {
              "module": "xsdata.formats.converter", "target": "ProxyConverter.deserialize",
              "old": "except ValueError as e", "new": "except TypeError as e"},
         ],
-        "decided": [], "not_decided": [], "bounded": [], "trusted_base": [], "assumptions": [],
+        "decided": ['every function under contract for any property carries a raises-only clause over the library error types (union of all contracts tagged C15)', 'scanner loops terminate (variants)', 'XmlEventHandler.process_context consumes every event of the document (a well-formedness error after the root element is delivered by the iterator)'],
+        "not_decided": ['rejection of non-well-formed documents (expat)', 'JSON decoder leak paths (JSONDecodeError, TypeError, AssertionError, AttributeError: functions not yet under contract)', 'ElementNode.bind / class factory TypeError'],
+        "bounded": [],
+        "trusted_base": ['assumed collaborator contracts (collab.py)', "abstraction artefacts listed in process_context's raises clause"],
+        "assumptions": [],
     },
     "C17": {
         "min_obligations": 40,
@@ -49,7 +65,11 @@ PROPERTIES = {
              "module": "xsdata.formats.dataclass.client", "target": "Client.prepare_headers",
              "old": "result = headers.copy()", "new": "result = headers"},
         ],
-        "decided": [], "not_decided": [], "bounded": [], "trusted_base": [], "assumptions": [],
+        "decided": ['prepare_headers: content-type text/xml, SOAPAction iff configured, caller headers kept, argument not mutated, other transports => ClientValueError', 'prepare_payload: non-instance => ClientValueError, payload is serializer.render(obj) (encoded iff configured)', 'send: exactly one post to config.location with that payload and those headers, returns parser.from_bytes(response, config.output)', 'Config.from_service: an explicit override wins (also when falsy), else the service class value'],
+        "not_decided": ['the two WSDL mapping sentences (DefinitionsMapper, detect_lazy_namespace)'],
+        "bounded": [],
+        "trusted_base": ['assumed: transport.post / parser.from_bytes / serializer.render are functions of their arguments'],
+        "assumptions": [],
     },
     "C14": {
         "min_obligations": 30,
@@ -58,7 +78,11 @@ PROPERTIES = {
              "module": "xsdata.formats.dataclass.models.elements", "target": "XmlVar.match_namespace",
              "old": "self.namespace_matches[qname] = matches", "new": "self.namespace_matches[qname[:1]] = matches"},
         ],
-        "decided": [], "not_decided": [], "bounded": [], "trusted_base": [], "assumptions": [],
+        "decided": ['XmlVar.match_namespace: result is a function of (namespaces, qname) for a cold and a warm memo, memo stays consistent and only grows', '_match_namespace against the documented wildcard constraint', 'XmlContext.build: function of (class, inherited namespace) when the class is not cached, other cache entries kept', 'XmlContext.fetch: function of its arguments', 'module constants are frozen: mutating one is an obligation failure'],
+        "not_decided": ['xsi cache rebuild (build_xsi_cache / find_types), parser ns_map non-interference, lru_cache purity obligations'],
+        "bounded": [],
+        "trusted_base": ['assumed: builder.build and find_subclass are functions of their arguments for a fixed set of loaded classes'],
+        "assumptions": ['known finding: XmlContext.cache is keyed by class only (region: clazz in self.cache)'],
     },
     "C09": {
         "min_obligations": 100,
@@ -70,7 +94,11 @@ PROPERTIES = {
              "module": "xsdata.formats.dataclass.parsers.utils", "target": "ParserUtils.normalize_content",
              "old": "return value", "new": "return value.strip()"},
         ],
-        "decided": [], "not_decided": [], "bounded": [], "trusted_base": [], "assumptions": [],
+        "decided": ['prefix renaming: QNameConverter.resolve and ParserUtils.xsi_type give the same expanded name under any renaming of the prefix (lemma over the contracts)', "in-scope map of the pure-Python handler = parent (+) local, parent untouched; recorded union events keep each element's own map", 'whitespace-only text normalises to None, other text is kept unchanged', 'padded bool / int / enum values'],
+        "not_decided": ['attribute order, comments, PIs, CDATA, character references, encodings, XInclude (expat / libxml2 / ElementInclude)', 'find_children / find_attribute are keyed by expanded names only (assumed collaborators)'],
+        "bounded": [],
+        "trusted_base": ['lemma hints strip_padded / index_at'],
+        "assumptions": [],
     },
     "C10": {
         "min_obligations": 150,
@@ -82,17 +110,29 @@ PROPERTIES = {
             {"name": "skipnode-bind-returns-true", "function": NODES + ".skip:SkipNode.bind",
              "module": NODES + ".skip", "target": "SkipNode.bind", "old": "return False", "new": "return True"},
         ],
-        "decided": [], "not_decided": [], "bounded": [], "trusted_base": [], "assumptions": [],
+        "decided": ['SkipNode swallows the subtree and binds nothing', 'unknown child: ParserError iff fail_on_unknown_properties else a SkipNode, assigned/wrappers untouched', 'unknown attributes: params untouched; ParserError iff fail_on_unknown_attributes and some attribute is outside the xsi namespace', 'conversion failure: ParserError iff fail_on_converter_warnings else exactly one warning and the input value is returned', 'unknown dict keys: ParserError iff fail_on_unknown_properties else nothing reaches the constructor', 'NodeParser.end returns what bind returned'],
+        "not_decided": ['the composition over whole documents (C01-style pipeline)'],
+        "bounded": [],
+        "trusted_base": ['assumed collaborator contracts in contracts/collab.py (XmlMeta lookups are functions of their arguments, build_node/bind_attr/bind_value raise only library errors)', 'balanced start/end events'],
+        "assumptions": [],
     },
     "C05": {
         "min_obligations": 50,
         "canaries": [],
-        "decided": [], "not_decided": [], "bounded": [], "trusted_base": [], "assumptions": [],
+        "decided": ["bool: 'true'/'false' out; every XSD lexical form with XSD whitespace in; anything else ConverterError", 'int: -?[0-9]+ out denoting the value; every [+-]?[0-9]+ with XSD whitespace in, with its value; only ConverterError', 'str pass-through; xsi:type datatype narrowest of short/int/long/integer', 'QName resolution: prefixed and unprefixed forms with padding resolve through the in-scope map, unknown prefix / non-NCName => ConverterError', 'ConverterFactory.serialize: None, scalar through the registered converter with the same options, token list item-wise', 'EnumConverter.deserialize matches the stripped text; ProxyConverter maps ValueError to ConverterError'],
+        "not_decided": ['float / Decimal lexical validity and round trip (repr(float), Decimal.__format__ are C code)', 'bytes (base16/base64), date/time format converters (strptime)', 'type priority table / sort_types / ConverterFactory.deserialize candidate loop / test(strict)', 'NCName production of is_ncname (character loop)'],
+        "bounded": [],
+        "trusted_base": ['lemma hints about str.strip, int(), str.partition (sampled against CPython on every run)', 'assumed: is_ncname / is_uri are functions of their argument', 'assumed: EnumConverter.match is a function of (candidate, tokens, member value, options)'],
+        "assumptions": [],
     },
     "C03": {
         "min_obligations": 100,
         "canaries": [],
-        "decided": [], "not_decided": [], "bounded": [], "trusted_base": [], "assumptions": [],
+        "decided": ['prefix helpers: generate_prefix picks a fresh prefix and keeps every existing binding; load_prefix reuses the first matching prefix; prefix_exists/is_default; split_qname/build_qname against Clark notation and their round trip', 'writer scope machine: add_namespace / add_attribute_namespace (attributes get a non-empty prefix) / reset_default_namespace (unqualified element => no default namespace in scope) / start_tag (child scope is a copy that inherits every binding, parent object untouched) / flush_start (element and attribute namespaces have prefixes in scope at the moment start_element is emitted, exactly one start_element)', 'token lists are serialized item by item with the same options (prefix map reaches QName items)'],
+        "not_decided": ['order/nesting of events produced by EventGenerator for arbitrary models', 'start_namespaces diff against the parent scope, end_tag, encode_data, set_data (assumed call views)', 'escaping / character-level well-formedness (XMLGenerator, lxml)', 'legality of user supplied prefixes (xmlns, 1a) and hostile URIs'],
+        "bounded": [],
+        "trusted_base": ['assumed: abstract SAX callbacks have no effect on the handler', 'writer stacks deeper than two scopes behave like the two-scope case (only the top two entries are read)'],
+        "assumptions": ['XMLGenerator / lxml consume the forwarded events as documented'],
     },
     "C06": {
         "min_obligations": 30,
@@ -102,10 +142,10 @@ PROPERTIES = {
             {"name": "format_offset-unsigned", "function": "xsdata.utils.dates:format_offset", "module": "xsdata.utils.dates",
              "target": "format_offset", "old": "sign = '-'", "new": "sign = '+'"},
         ],
-        "decided": [],
-        "not_decided": [],
+        "decided": ['validate_date / validate_time / monthlen against the proleptic Gregorian calendar', 'format_date / format_time / format_offset produce a valid XSD lexical form denoting exactly the components (any of the 1-9 fraction digit spellings)', 'scanner leaves: cursor movement, raised exceptions, loop termination', 'XmlDate/XmlTime/XmlDateTime.from_string: returns only real calendar dates / times of day, raises only ValueError', 'XmlTime and XmlDateTime ==, !=, <, <=, >, >= agree with XSD timeOnTimeline (exact integers)'],
+        "not_decided": ['every valid lexical form is accepted with the components XSD assigns (needs the array-encoded scanner proof)', 'XmlDuration, XmlPeriod shapes', 'to_datetime/from_datetime and friends', 'hash consistency with equality'],
         "bounded": [],
-        "trusted_base": [],
-        "assumptions": [],
+        "trusted_base": ["py_pad model of format(n, '0Nd') (sampled against CPython)", 'generator parse() executed eagerly (consumers unpack immediately)'],
+        "assumptions": ['python ints as mathematical integers (exact)'],
     },
 }
